@@ -1,4 +1,6 @@
 import LoguruModel.Parse.Finditer
+import LoguruModel.Parse.Trace
+import LoguruModel.Parse.Cont
 import LoguruModel.Driver
 open Parse Py
 
@@ -7,7 +9,12 @@ open Parse Py
   reads <scanner> <read>*        findIter over the given reads ("-" = empty read = end of input)
   scan <scanner> <text>          the whole-text scan with spans  s:e:value,…
   parse <file> <cast> <patOk> <read>*    events, number of dicts, error of `parse` (line scanner)
-scanner ∈ {line, block, linem (= generic finditer of the anchored line matcher)}; values: hex tokens, block values `a;b`; empty list `_`; `!Err` suffix. -/
+  trace <file> <strIsPath> <openErr|-> <kindOk> <patOk> <cast> <limit|-> <chunk> <read>*
+                                 event trace of the lazy pipeline (line scanner, groupdict {0: line});
+                                 read = hex token | "-" (empty) | "!Err" (the read raises);
+                                 cast = none | dict | dictraise:<code point> | fn | fnraise:<code point> | invalid;
+                                 output O,R,Y<tok>,E<Err>,C …
+scanner ∈ {line, block, linem (= generic finditer of the anchored line matcher), cont (line + indented continuation lines)}; values: hex tokens, block values `a;b`; empty list `_`; `!Err` suffix. -/
 
 def showVals (vs : List String) : String := if vs.isEmpty then "_" else ",".intercalate vs
 
@@ -24,6 +31,7 @@ def findIterS (sc : String) (reads : List (List Char)) : Option String :=
   | "line" => let r := findIter (lineScanner '\n') reads; some (showRes (r.1.map lineVal, r.2))
   | "block" => let r := findIter (blockScanner '\n') reads; some (showRes (r.1.map blockVal, r.2))
   | "linem" => let r := findIter (finditer (lineMatcher '\n')) reads; some (showRes (r.1.map lineVal, r.2))
+  | "cont" => let r := findIter (contScanner '\n' ' ') reads; some (showRes (r.1.map lineVal, r.2))
   | _ => none
 
 def scanS (sc : String) (t : List Char) : Option String :=
@@ -31,6 +39,7 @@ def scanS (sc : String) (t : List Char) : Option String :=
   | "line" => some (showVals ((lineScanner '\n' t).map (fun m => s!"{m.s}:{m.e}:{lineVal m.val}")))
   | "block" => some (showVals ((blockScanner '\n' t).map (fun m => s!"{m.s}:{m.e}:{blockVal m.val}")))
   | "linem" => some (showVals ((finditer (lineMatcher '\n') t).map (fun m => s!"{m.s}:{m.e}:{lineVal m.val}")))
+  | "cont" => some (showVals ((contScanner '\n' ' ' t).map (fun m => s!"{m.s}:{m.e}:{lineVal m.val}")))
   | _ => none
 
 def decAll (toks : List String) : Option (List (List Char)) :=
@@ -44,6 +53,57 @@ def fileArg : String → Option FileArg
 
 def showEvent : Event → String
   | .opened => "O" | .read => "R" | .closed => "C"
+
+def errOf : String → Option Err
+  | "ValueError" => some .valueError | "TypeError" => some .typeError | "KeyError" => some .keyError
+  | "IndexError" => some .indexError | "OSError" => some .osError | "RuntimeError" => some .runtimeError
+  | "Other" => some .other | _ => none
+
+def readOf (tok : String) : Option (ReadRes Char) :=
+  if tok.startsWith "!" then (errOf (tok.drop 1).toString).map .error else (decTok tok).map .ok
+
+def readsOf (toks : List String) : Option (List (ReadRes Char)) :=
+  toks.foldr (fun t acc => match readOf t, acc with
+    | some x, some r => some (x :: r)
+    | _, _ => none) (some [])
+
+def convRaise (c : Char) : List Char → Except Err (List Char) :=
+  fun v => if v.contains c then .error .valueError else .ok ('#' :: v)
+
+def castOf (c : String) : Option (CastArgE Nat (List Char)) :=
+  match c.splitOn ":" with
+  | ["none"] => some (.dict [])
+  | ["dict"] => some (.dict [(0, fun v => .ok ('#' :: v)), (5, fun v => .ok v)])
+  | ["dictraise", n] => n.toNat?.map (fun n => .dict [(0, convRaise (Char.ofNat n))])
+  | ["fn"] => some (.fn (fun g => .ok (g.map (fun kv => (kv.1, '#' :: kv.2)))))
+  | ["fnraise", n] => n.toNat?.map (fun n => .fn (fun g =>
+      if g.any (fun kv => kv.2.contains (Char.ofNat n)) then .error .valueError
+      else .ok (g.map (fun kv => (kv.1, '#' :: kv.2)))))
+  | ["invalid"] => some .invalid
+  | _ => none
+
+def showTEv : TEv (List (Nat × List Char)) → String
+  | .opened => "O" | .read => "R" | .closed => "C"
+  | .raised e => "E" ++ toString e
+  | .yielded g => "Y" ++ ";".intercalate (g.map (fun kv => encTok kv.2))
+
+def bit : String → Option Bool
+  | "1" => some true | "0" => some false | _ => none
+
+def traceS (f sp oe ko po c lim ch : String) (toks : List String) : String :=
+  match fileArg f, bit sp, bit ko, bit po, castOf c, ch.toNat?, readsOf toks with
+  | some f, some sp, some ko, some po, some cast, some ch, some reads =>
+    let oe? : Option (Option Err) := if oe == "-" then some none else (errOf oe).map some
+    let lim? : Option (Option Nat) := if lim == "-" then some none else lim.toNat?.map some
+    match oe?, lim? with
+    | some oe, some lim =>
+      let scan : Scanner Char (List (Nat × List Char)) := mapVal (fun v => [(0, v)]) (lineScanner '\n')
+      let vv : ValView (List Char) := ⟨fun _ => false, fun v => !v.isEmpty⟩
+      let tr := parseTrace { file := f, strIsPath := sp, openErr := oe, kindOk := ko, patternOk := po,
+                             chunk := ch, reads := reads } cast vv scan lim
+      if tr.isEmpty then "_" else ",".intercalate (tr.map showTEv)
+    | _, _ => "bad-op"
+  | _, _, _, _, _, _, _ => "bad-op"
 
 def step (line : String) : String :=
   match line.splitOn " " with
@@ -61,6 +121,7 @@ def step (line : String) : String :=
     match decTok t with
     | some t => (scanS sc t).getD "bad-op"
     | none => "bad-op"
+  | "trace" :: f :: sp :: oe :: ko :: po :: c :: lim :: ch :: toks => traceS f sp oe ko po c lim ch toks
   | "parse" :: f :: c :: p :: toks =>
     match fileArg f, decAll toks with
     | some f, some reads =>
